@@ -88,6 +88,13 @@ func controlExpectations() []traceCase {
 	}{{"\"bob\"", []string{"1"}}, {"\"Alice\"", []string{"2"}}, {"\"Carol\"", nil}, {"\"alice\"", nil}} {
 		out = append(out, traceCase{"switch (" + s.val + ") { case \"bob\" { rec(1); } case /^A/ { rec(2); } case \"Alice\" { rec(3); } } return 1;", tr(s.want...), ""})
 	}
+	// every expression of a case list is evaluated and tried, in order, repeated spellings included
+	out = append(out,
+		traceCase{"n = 0; function next() { n = n + 1; rec(n); return n; } switch (2) { case next(), next() { rec(\"hit\"); } default { rec(\"default\"); } } return n;", tr("1", "2", "hit"), "V:INTEGER:" + hexs("2")},
+		traceCase{"n = 0; function next() { n = n + 1; rec(n); return n; } switch (99) { case next(), next(), next() { rec(\"hit\"); } } return n;", tr("1", "2", "3"), "V:INTEGER:" + hexs("3")},
+		traceCase{"n = 0; function next() { n = n + 1; rec(n); return n; } switch (1) { case next(), next() { rec(\"hit\"); } case next() { rec(\"second\"); } } return n;", tr("1", "hit"), "V:INTEGER:" + hexs("1")},
+		traceCase{"switch (3) { case 1, 1, 3, 3 { rec(\"a\"); } case 3 { rec(\"b\"); } default { rec(\"d\"); } } return 0;", tr("a"), "V:INTEGER:" + hexs("0")},
+	)
 	// function definitions wherever they stand - between statements, inside other functions, inside blocks and
 	// loop bodies, in switch arms - do nothing at run time and drop nothing around them
 	out = append(out,
